@@ -1,6 +1,8 @@
 package gen
 
 import (
+	"net/http"
+	"net/url"
 	"database/sql"
 	"math"
 	"reflect"
@@ -79,6 +81,8 @@ func HostileValues() []any {
 		map[string]struct{}{"a": {}}, map[string]func(){"a": nil}, map[string]chan int{"a": nil}, map[[2]int]string{{1, 2}: "x"},
 		// database/sql wrapper types (driver.Valuer with value receivers), also as typed-nil pointers
 		sql.NullString{}, sql.NullString{String: "s", Valid: true}, (*sql.NullString)(nil), (*sql.NullTime)(nil), (*sql.NullInt64)(nil), &sql.NullInt64{Int64: 3, Valid: true}, map[string]any{"a": (*sql.NullString)(nil), "f": (*sql.NullBool)(nil)}, []any{(*sql.NullFloat64)(nil)},
+		// multi-valued maps with empty lists (hand-built url.Values / http.Header), pointers to nil pointers to lists
+		url.Values{"a": {}, "f": nil, "tags": {}}, http.Header{"A": {}}, map[string][]string{"a": {}, "f": {"x"}}, ptrToNilSlicePtr(), ptrToNilIntPtr(),
 		// named string keys over element types the providers do not convert
 		map[KeyStr][]string{"a": {"x"}, "f": {"y", "z"}}, map[KeyStr]int64{"a": 1, "f": 2}, map[KeyStr]time.Time{"a": BaseTime}, map[KeyStr]*int{"a": &one}, map[NamedStr]map[string]any{"a": {"b": 1}}, map[KeyStr]struct{ A int }{"a": {1}},
 		// structs
@@ -149,3 +153,6 @@ func sortStrings(s []string) {
 		}
 	}
 }
+
+func ptrToNilSlicePtr() any { var np *[]string; return &np }
+func ptrToNilIntPtr() any   { var np *int; pp := &np; return &pp }
